@@ -215,6 +215,24 @@ theorem dx_str (ctx : Ctx) (b : Bool) (w : Bool) (s : List Char) (hwf : (Tok.str
       narrow_map _ hlt, decodeUtf16_utf16Units]
     simp [actOf]
 
+theorem dx_attrChoose (ctx : Ctx) (b : Bool) (offs : List Nat) (hwf : (Tok.attrChoose offs).wf true) (rest : Bytes) :
+    decodeTokXls ctx b (encXls (Tok.attrChoose offs) ++ rest) = .ok (actOf (envOfXls ctx) true (Tok.attrChoose offs), rest) := by
+  obtain ⟨h1, h2, _⟩ := hwf
+  have hn : offs.length - 1 + 1 = offs.length := by omega
+  have h16 : offs.length - 1 < 65536 := by omega
+  simp only [decodeTokXls, encXls, List.cons_append, List.append_assoc]
+  have h19 : (0x19 : UInt8).toNat = 0x19 := rfl
+  have h04 : (0x04 : UInt8).toNat = 0x04 := rfl
+  rw [h19]
+  simp only [decodeXls, byteAt_zero, h04, List.drop_succ_cons, List.drop_zero]
+  have hl16 : ∀ (m : Nat) (r : Bytes), (le16 m ++ r).length = 2 + r.length := by intro m r; simp [le16]; omega
+  rw [need_ok true _ 1 (by simp), need_ok true _ 2 (by rw [hl16]; omega), u16_le16 _ _ h16, hn,
+    need_ok true _ _ (by rw [hl16, List.length_append, unitsLe_length]; omega)]
+  simp only [Res.bind_ok]
+  rw [Nat.add_comm 2, show 2 * offs.length + 2 = (unitsLe offs).length + 2 from by rw [unitsLe_length], drop_16,
+    List.drop_left' rfl]
+  rfl
+
 theorem decode_encode_xls (ctx : Ctx) (b : Bool) (t : Tok) (hwf : t.wf true) (rest : Bytes) :
     decodeTokXls ctx b (encXls t ++ rest) = .ok (actOf (envOfXls ctx) true t, rest) := by
   cases t with
@@ -240,6 +258,7 @@ theorem decode_encode_xls (ctx : Ctx) (b : Bool) (t : Tok) (hwf : t.wf true) (re
   | paren => exact dx_paren ctx b hwf rest
   | attrSum => exact dx_attrSum ctx b hwf rest
   | attrSkip e w => exact dx_attrSkip ctx b e w hwf rest
+  | attrChoose offs => exact dx_attrChoose ctx b offs hwf rest
   | func c iftab => exact dx_func ctx b c iftab hwf rest
   | funcVar c argc iftab => exact dx_funcVar ctx b c argc iftab hwf rest
 
